@@ -126,7 +126,22 @@ def oracleSolve (U : Universe) (P : Problem) (cfg : String) (r : ImplSolve) (pri
             [s!"oracle-fail C08 best-direct: a valid solution contains all first choices [{natList fcs}] of the root requirements but solution is [{natList sel}]", "info best-direct-applicable 1"]
         | none => []
       else []
-    info ++ o1 ++ o2 ++ o5 ++ o7 ++ o8
+    -- C14 (c): the last soft requirement was tried on top of exactly this solution; if the solution can be extended by
+    -- it (and first choices for what it needs) without touching anything installed, skipping it was not best effort
+    let o14 := if !sync || !prior.isEmpty || cancelled then [] else
+      match P.soft.getLast? with
+      | some s =>
+        (match softInstallable U P sel exempt s with
+         | some ext =>
+           -- the known mechanism: an excluded / locked-out solvable was accepted under the documented exemption before
+           -- its package was requested; once a later soft requirement requests the package, the package-level assertion
+           -- contradicts the accepted solvable and every later soft requirement is rejected
+           (match exempt.find? (fun e => U.excluded e || U.lockedOut e) with
+            | some e => [s!"oracle-fail C14 soft-poisoned: a later soft requirement is rejected after an excluded or locked-out soft solvable was accepted under the exemption (rejected {s}, accepted {e}, solution [{natList sel}], could add [{natList ext}])"]
+            | none => [s!"oracle-fail C14 soft-skipped: soft requirement {s} is not in the solution [{natList sel}] although adding [{natList ext}] keeps it valid"])
+         | none => [])
+      | none => []
+    info ++ o1 ++ o2 ++ o5 ++ o7 ++ o8 ++ o14
   | "unsat" =>
     let o2 := if solvable then [s!"oracle-fail C02,C10,C13,C14,C15 verdict: implementation says Unsolvable but a solution exists (decideSolvable=true)"] else []
     info ++ o2 ++ graphOracle U P r
